@@ -31,8 +31,8 @@ type c02Case struct {
 type nullSearch struct{}
 
 func (nullSearch) Go(*board.Board, ...search.Option) (Score, move.Move, move.Move) { return 0, 0, 0 }
-func (nullSearch) Clear()                                                           {}
-func (nullSearch) ResizeTT(int)                                                     {}
+func (nullSearch) Clear()                                                          {}
+func (nullSearch) ResizeTT(int)                                                    {}
 
 // runDriver feeds script to a fresh driver (mock search) and returns stdout, stderr.
 func runDriver(script string, s uci.Search) (string, string) {
